@@ -20,7 +20,9 @@ def cB(b):
     return "[%s]%%N" % ";".join(str(x) for x in b)
 
 
-def usable(desc):
+def usable(desc, backend="numpy"):
+    """IterData carries no declared types: an empty lazy sequence (or a first record with an empty inner sequence) cannot be
+    described by the server (known findings C15-empty-lazy-sequence / C04-empty-lazy-result); not part of C01's domain"""
     ok = [True]
 
     def rec(d):
@@ -29,7 +31,7 @@ def usable(desc):
                 rec(m)
         elif d[0] == "seq":
             nested = any(c[0] == "seq" for c in d[2])
-            if nested:
+            if nested or backend == "iterdata":
                 if not d[3]:
                     ok[0] = False
                 else:
@@ -114,7 +116,10 @@ def main():
             done += 1
             want = source(desc)
             for gz in (False, True):
-                ds = G.build(desc, rng.choice(["numpy", "numpy", "iterdata"]) if all(True for _ in [0]) else "numpy")
+                backend = rng.choice(["numpy", "numpy", "iterdata"])
+                if not usable(desc, backend):
+                    backend = "numpy"
+                ds = G.build(desc, backend)
                 app = BaseHandler(ds, gzip=gz)
                 # the separator hypothesis of the theorem, on the real DDS text
                 body = Request.blank("/.dods").get_response(BaseHandler(ds)).body
